@@ -59,6 +59,8 @@ FIELD_INFO = {
     "w2":    {"att": "w2", "name": "w2", "keys": ["w2"], "type": "int"},
     "hsum":  {"att": "hsum", "name": "hsum", "keys": ["hsum"], "type": "int"},
     "num":   {"att": "num", "name": "num", "keys": ["num"], "type": "anynum"},
+    "camF":  {"att": "camF", "name": "camF", "keys": ["camF", "camf", "CAMF"], "type": "int"},
+    "cdep":  {"att": "cdep", "name": "cdep", "keys": ["cdep"], "type": "int"},
     "nkind": {"att": "nkind", "name": "nkind", "keys": ["nkind"], "type": "str"},
     "tt":    {"att": "tt", "name": "tt", "keys": ["tt"], "type": "int"},
     "ratio": {"att": "ratio", "name": "ratio", "keys": ["ratio"], "type": "int"},
@@ -66,7 +68,7 @@ FIELD_INFO = {
     "tb":    {"att": "tb", "name": "tb", "keys": ["tb"], "type": "int"},
     "td":    {"att": "td", "name": "td", "keys": ["td"], "type": "int"},
 }
-ORDER = ["req", "opt", "its", "pos", "fin", "ali", "hid", "lf", "mreq", "exo", "total", "w", "num"]
+ORDER = ["req", "opt", "its", "pos", "fin", "ali", "hid", "lf", "mreq", "exo", "total", "w", "num", "camF"]
 
 
 def source(plan):
@@ -79,6 +81,8 @@ def source(plan):
     for k in ("ignore_delete_nonexistent", "immutable", "collect_errors"):
         if o.get(k):
             okw.append(f"{k}=True")
+    if o.get("invalid_values"):
+        okw.append(f"invalid_values={o['invalid_values']!r}")
     if plan.get("mode") == "class":
         okw.append("mode='w'")
     L = ["from utype import Schema, DataClass, Field, Options", "from typing import List, Optional, Final",
@@ -107,7 +111,7 @@ def source(plan):
     if "lf" in fs:
         L.append("    lf: Leaf = Field(required=False)")
     if "mreq" in fs:
-        L.append("    mreq: int = Field(required='w', default=5)")
+        L.append("    mreq: int = Field(required='w')" if plan.get("mreq_nodefault") else "    mreq: int = Field(required='w', default=5)")
     if "exo" in fs:
         L.append("    exo: int = Field(required=False, on_error='exclude')")
     if "total" in fs:
@@ -132,6 +136,10 @@ def source(plan):
         # a property that depends on a field which is kept out of the key view
         L += ["    @property", "    @Field(dependencies=['hid'])", "    def hsum(self) -> int:",
               "        return self.hid + 100"]
+    if "camF" in fs:
+        # a case-insensitive field whose name has capitals, and a property that depends on it
+        L += ["    camF: int = Field(case_insensitive=True, default=1)", "    @property", "    @Field(dependencies=['camF'])",
+              "    def cdep(self) -> int:", "        return self.camF + 7"]
     if "num" in fs:
         # values that compare equal need not be the same value (1 == True == 1.0): the dependant tells them apart
         L.insert(1, "from typing import Any")
@@ -200,8 +208,6 @@ def _spell(rng, plan, kind):
 def generate(rng, tier):
     base = rng.choice(["schema", "schema", "schema", "dataclass"])
     fs = ["req"] + [k for k in ORDER[1:] if rng.random() < 0.55]
-    if base == "dataclass":
-        fs = [k for k in fs if k != "w"]
     if "total" in fs and "pos" not in fs:
         fs.append("pos")
     fs = [k for k in ORDER if k in fs]
@@ -216,6 +222,7 @@ def generate(rng, tier):
     # no field without a default (and no immutable one): clear() and popitem() can go all the way
     plan["noreq"] = "fin" not in fs and rng.random() < 0.35
     if "mreq" in fs:
+        plan["mreq_nodefault"] = rng.random() < 0.4
         plan["mode"] = rng.choice([None, "class", "runtime"]) if base == "schema" else rng.choice([None, "class"])
     o = plan["options"]
     r = rng.random()
@@ -225,6 +232,8 @@ def generate(rng, tier):
         o["ignore_delete_nonexistent"] = True
     if rng.random() < 0.2:
         o["collect_errors"] = True
+    if rng.random() < 0.15:
+        o["invalid_values"] = "exclude"     # an invalid value leaves the field out (or at its default) instead of raising
     if rng.random() < (0.12 if plan["inherit"] else 0.04):
         o["immutable"] = True
     pool = _Pool()
@@ -361,7 +370,7 @@ def read_attr(inst, att):
     except AttributeError:
         return _MISSING
     except Exception:  # noqa  a property body computing over already-broken data; the broken field itself is reported
-        if att in ("total", "w", "w2", "hsum", "nkind", "tt", "tb", "td", "ratio", "dbl"):
+        if att in ("total", "w", "w2", "hsum", "nkind", "tt", "tb", "td", "ratio", "dbl", "cdep"):
             return _MISSING
         raise
 
@@ -375,7 +384,7 @@ class View:
         self.extra = {}
         is_schema = plan["base"] == "schema"
         names = {}
-        all_kinds = list(plan["fields"]) + (["w2"] if "w" in plan["fields"] else []) + (["hsum"] if plan.get("hsum") else []) + (["nkind"] if "num" in plan["fields"] else []) + (["tt"] if plan.get("tt") else []) + (["tb", "td"] if plan.get("diamond") else []) + (["ratio"] if plan.get("ratio") else []) + (["dbl"] if plan.get("dbl") else [])
+        all_kinds = list(plan["fields"]) + (["w2"] if "w" in plan["fields"] else []) + (["hsum"] if plan.get("hsum") else []) + (["nkind"] if "num" in plan["fields"] else []) + (["tt"] if plan.get("tt") else []) + (["tb", "td"] if plan.get("diamond") else []) + (["cdep"] if "camF" in plan["fields"] else []) + (["ratio"] if plan.get("ratio") else []) + (["dbl"] if plan.get("dbl") else [])
         for k in all_kinds:
             names[FIELD_INFO[k]["name"]] = k
         if is_schema:
@@ -405,7 +414,7 @@ def check_invariants(plan, inst, initial, res, opname, field, current=True):
     v = View(plan, inst)
     fs = plan["fields"]
     is_schema = plan["base"] == "schema"
-    props = {"total", "w", "w2", "hsum", "nkind", "tt", "tb", "td", "ratio", "dbl"}
+    props = {"total", "w", "w2", "hsum", "nkind", "tt", "tb", "td", "ratio", "dbl", "cdep"}
     # I1 conformance of every present field, in both views
     for k, val in v.keys.items():
         if not conforms(k, val):
@@ -428,7 +437,7 @@ def check_invariants(plan, inst, initial, res, opname, field, current=True):
             out.append(("I3", "class", "instance of an immutable class changed"))
     # I4 key view and attribute view agree
     if is_schema:
-        for k in list(fs) + (["w2"] if "w" in fs else []) + (["hsum"] if plan.get("hsum") else []) + (["nkind"] if "num" in fs else []) + (["tt"] if plan.get("tt") else []) + (["tb", "td"] if plan.get("diamond") else []) + (["ratio"] if plan.get("ratio") else []) + (["dbl"] if plan.get("dbl") else []):
+        for k in list(fs) + (["w2"] if "w" in fs else []) + (["hsum"] if plan.get("hsum") else []) + (["nkind"] if "num" in fs else []) + (["tt"] if plan.get("tt") else []) + (["tb", "td"] if plan.get("diamond") else []) + (["cdep"] if "camF" in plan["fields"] else []) + (["ratio"] if plan.get("ratio") else []) + (["dbl"] if plan.get("dbl") else []):
             if k == "hid":
                 if "hid" in v.keys:
                     out.append(("I4", k, "no_output field present in the key view"))
@@ -451,6 +460,9 @@ def check_invariants(plan, inst, initial, res, opname, field, current=True):
         want = v.keys["req"] * 10 + v.keys["pos"] + 1000
         if "tt" in v.keys and v.keys["tt"] != want:
             out.append(("I5", "tt", f"tt={v.keys['tt']!r} but req*10+pos+1000={want!r} (a property that depends on the property total)"))
+    if "camF" in fs and is_schema and "camF" in v.keys and conforms("camF", v.keys["camF"]):
+        if "cdep" in v.keys and v.keys["cdep"] != v.keys["camF"] + 7:
+            out.append(("I5", "cdep", f"cdep={v.keys['cdep']!r} but camF+7={v.keys['camF'] + 7!r}"))
     if plan.get("ratio") and is_schema and "pos" in v.keys and conforms("pos", v.keys["pos"]):
         if v.keys["pos"] == 0 and "ratio" in v.keys:
             out.append(("I5", "ratio", f"ratio={v.keys['ratio']!r} is still there although it cannot be computed for pos=0 (an instance initialized with pos=0 has no ratio)"))
